@@ -84,7 +84,7 @@ def build(reg):
     m.cls("GCMAlgorithmFast", fields={"_motif_sizes": LInt, "_edge_names": LName, "_build_functions": LFn})
     E = "EdgeList"; BLK = "blk(self._build_functions, self._motif_sizes, stubs, rec_k, rec_pos, {m})"; MID = f"{E}._motif_id[p]"
     COLS = {"par1": f"len({E}._edge_list) == len({E}._topologies)", "par2": f"len({E}._edge_list) == len({E}._motif_id)", "gen": "gen >= 0",
-        "jds": f"{E}._joint_degrees == jds",
+        "jds": f"(len({E}._joint_degrees) == len(jds) and forall(vj, 0, len(jds), {E}._joint_degrees[vj] == jds[vj], trigger={E}._joint_degrees[vj]))",      # entry by entry: a re-built list of the same rows is "carried through unchanged" too
         "ids": f"forall(p, 0, len({E}._motif_id), 0 <= {MID} and {MID} < gen)",
         "blk_lo": f"forall(p, 0, len({E}._edge_list), rec_start[{MID}] <= p)",
         "blk_hi": f"forall(p, 0, len({E}._edge_list), p < rec_start[{MID}] + len({BLK.format(m=MID)}))",
@@ -104,7 +104,7 @@ def build(reg):
                 "sizes": "forall(c, 0, T, self._motif_sizes[c] >= 1)",
                 "handshake": "forall(c, 0, T, colsum(jds, c, len(jds)) % self._motif_sizes[c] == 0)"},
       ensures={"columns_parallel": "len(result._edge_list) == len(result._topologies) and len(result._edge_list) == len(result._motif_id)",
-               "jds_carried": "result._joint_degrees == old(jds)",
+               "jds_carried": "len(result._joint_degrees) == len(old(jds)) and forall(vj, 0, len(old(jds)), result._joint_degrees[vj] == old(jds)[vj], trigger=result._joint_degrees[vj])",
                **{"tiling." + k_[2:]: v_ for k_, v_ in ENS.items()},
                "slots_per_vertex": "forall(c, 0, T, forall(v, 0, len(jds), count(stubs[c], v, len(stubs[c])) == jds[v][c]))",
                "vertices_in_range": "forall(c, 0, T, forall(p, 0, len(stubs[c]), 0 <= stubs[c][p] and stubs[c][p] < len(jds)))",
